@@ -11,15 +11,16 @@ for d in seeded/C*/; do
   pf=/verif/$d/patch.diff
   [ -f /verif/$d/patch_current.diff ] && pf=/verif/$d/patch_current.diff   # ported onto the fix commits when the original no longer applies
   line=$(./drv/selftest.sh $pf $prop | head -1)
-  grep -q neutralised_by $d/meta.json || echo "$line" >> $R
+  grep -q 'neutralised_by\|outside_quantified_space' $d/meta.json || echo "$line" >> $R
   python3 - "$d" "$line" <<'PY'
 import json,sys,os
 d,line=sys.argv[1],sys.argv[2]
 m=json.load(open(d+'/meta.json'))
 caught=' CAUGHT ' in line
-if m.get('neutralised_by'):
+if m.get('neutralised_by') or m.get('outside_quantified_space'):
     if not caught:
-        line=line.replace('MISSED','SILENT-AS-EXPECTED (change neutralised by fix %s, see meta.json)'%m['neutralised_by']['commit'])
+        why=('change neutralised by fix %s'%m['neutralised_by']['commit']) if m.get('neutralised_by') else "needs a fault the property does not quantify over"
+        line=line.replace('MISSED','SILENT-AS-EXPECTED (%s, see meta.json)'%why)
     open(os.environ['R'],'a').write(line+'\n')
 sig=line.split(' CAUGHT ',1)[1].strip() if caught else ''
 m['caught_by']=dict(check=f"./run.sh {m['property']} quick", caught=caught, signatures=sig[:600], note='' if caught else line[:300])
